@@ -21,7 +21,7 @@ def gen_cfg(sw: Stream, ra: Stream, methods=('pit', 'mps', 'sn'), weights=(4, 4,
             if sw.chance(0.15):
                 ctor[f] = False
         cfg['cost'] = sw.choice(['single:params', 'single:ops', 'dict:params+ops', 'single:params_no_bias',
-                                 'dict:params+ops_no_bias'])
+                                 'dict:params+ops_no_bias', 'single:gap8_latency', 'dict:params+gap8_latency'])
     elif method == 'mps':
         cfg['spec'] = arch.gen_mps(ra)
         if sw.chance(0.5):
@@ -44,7 +44,14 @@ def gen_cfg(sw: Stream, ra: Stream, methods=('pit', 'mps', 'sn'), weights=(4, 4,
             ctor['full_cost'] = True
         if sw.chance(0.15):
             ctor['disable_shared_quantizers'] = True
-        cfg['cost'] = sw.choice(['single:params_bit', 'dict:params_bit+ops_bit', 'single:ops_bit'])
+        cfg['cost'] = sw.choice(['single:params_bit', 'dict:params_bit+ops_bit', 'single:ops_bit',
+                                 'single:params_bit', 'dict:params_bit+ops_bit', 'single:ops_bit',
+                                 'single:mpic_latency', 'dict:params_bit+mpic_energy'])
+        if 'mpic' in cfg['cost'] and not mpic_ok(ctor):
+            # (the MPIC look-up tables are defined for activation precisions {2,4,8} and weight precisions {0,2,4,8})
+            cfg['cost'] = cfg['cost'].replace('mpic_latency', 'ops_bit').replace('mpic_energy', 'ops_bit')
+        if sw.chance(0.25):
+            ctor['qinfo'] = sw.choice(['asym', 'initclip', 'signed', 'override'])
     else:
         cfg['spec'] = arch.gen_supernet(ra, max_branches=sw.choice([3, 4, 4, 8]))
         if sw.chance(0.3):
@@ -69,13 +76,21 @@ def gen_cfg(sw: Stream, ra: Stream, methods=('pit', 'mps', 'sn'), weights=(4, 4,
     return cfg
 
 
+def mpic_ok(ctor):
+    return set(ctor.get('a_prec', (2, 4, 8))) <= {2, 4, 8} and set(ctor.get('w_prec', (2, 4, 8))) <= {0, 2, 4, 8}
+
+
 def other_cost(cfg, rs):
     if cfg['method'] == 'mps':
         pool = ['single:params_bit', 'dict:params_bit+ops_bit', 'single:ops_bit',
                 'dict:params_bit=ops_bit+ops_bit=params_bit']
+        if mpic_ok(cfg.get('ctor', {})):
+            pool += ['single:mpic_latency', 'dict:mpic_energy+mpic_latency']
     else:
         pool = ['single:params', 'single:ops', 'dict:params+ops', 'single:ops_no_bias',
                 'dict:params=params_no_bias+ops', 'dict:params+ops=ops_no_bias']
+        if cfg['method'] == 'pit':
+            pool += ['single:gap8_latency', 'dict:ops+gap8_latency']
     pool = [p for p in pool if p != cfg['cost']]
     return rs.choice(pool)
 
@@ -201,4 +216,29 @@ def add_mode_scopes(cfg, ops, rm):
     if rm.chance(0.6):
         out.insert(rm.randint(0, len(out)), {'op': 'set_mode', 'mode': rm.choice(['eval', 'eval', 'train']),
                                              'scope': scope()})
+    return out
+
+
+BYSTANDER_WEIGHTS = {'train_step': 4, 'forward_only': 2, 'perturb_arch': 1.5, 'set_mode': 1.5, 'train_group': 1,
+                     'set_flag': 0.7, 'softmax_opts': 1.5, 'observer': 3, 'read_cost': 1, 'read_summary': 0.5}
+
+
+def gen_bystander(cfg, rb: Stream, tag):
+    """another search of the same process (see world.run_bystander): its own small architecture - of the same method
+    as the model under test in 70 % of the draws -, its own constructor options, 2-6 ops. Everything is stored in the
+    op, so that a replay needs no PRNG."""
+    method = cfg['method'] if rb.chance(0.7) else rb.choice(['pit', 'mps', 'sn'])
+    bcfg = gen_cfg(rb, rb, methods=(method,), weights=(1,))
+    ops = [gen_base_op(bcfg, rb, BYSTANDER_WEIGHTS, {}) for _ in range(rb.randint(2, 6))]
+    return {'op': 'bystander', 'cfg': bcfg, 'ops': ops, 'seed': rb.randint(0, 2 ** 31), 'idx': tag, 'inject': True}
+
+
+def add_bystanders(cfg, ops, rb: Stream, p=0.2):
+    """in a fraction of the runs one or two other searches of the same process are built and run (on the subject
+    replica only) at seeded points of the history. Drawn from a stream of its own."""
+    if not rb.chance(p):
+        return ops
+    out = list(ops)
+    for t in range(rb.randint(1, 2)):
+        out.insert(rb.randint(0, len(out)), gen_bystander(cfg, rb, t))
     return out
